@@ -34,7 +34,7 @@ def corpus():
 def cases(tier, rng):
     n = 60 if tier == "quick" else 500
     for t in range(n):
-        nr, nc = rng.randint(2, 7), rng.randint(2, 7)
+        nr, nc = nets.rshape(rng, 2, 7)
         if t % 3 == 0:
             nr, nc = rng.randint(4, 9), rng.randint(4, 9)
         flw = nets.random_d8_raster(rng, nr, nc, p_nodata=rng.choice([0, 0.1, 0.25]))
